@@ -25,6 +25,8 @@ type scriptDev struct {
 	quoteResult  uintptr
 	status       uint64
 	outLen       uint32
+	untouched    bool // the device reports success but writes nothing back (OutLen, Status, Data stay as sent)
+	sawOutLen    []uint32
 	tdReport     [labi.TdReportSize]byte
 	data         []byte // what the device writes into the buffer (len <= ReqBufSize)
 
@@ -64,8 +66,12 @@ func (d *scriptDev) Ioctl(command uintptr, arg any) (uintptr, error) {
 		d.sawQuoteReport = append(d.sawQuoteReport, append([]byte{}, hdr.Data[:labi.TdReportSize]...))
 		d.sawInLen = append(d.sawInLen, hdr.InLen)
 		d.sawLength = append(d.sawLength, req.Length)
+		d.sawOutLen = append(d.sawOutLen, hdr.OutLen)
 		if d.quoteErr != nil {
 			return 0, d.quoteErr
+		}
+		if d.untouched {
+			return d.quoteResult, nil
 		}
 		copy(hdr.Data[:], d.data)
 		hdr.OutLen = d.outLen
@@ -77,6 +83,7 @@ func (d *scriptDev) Ioctl(command uintptr, arg any) (uintptr, error) {
 }
 
 type c15Cell struct {
+	untouched  bool
 	rErr, qErr bool
 	rRes, qRes uintptr
 	status     uint64
@@ -84,6 +91,9 @@ type c15Cell struct {
 }
 
 func (c c15Cell) String() string {
+	if c.untouched {
+		return fmt.Sprintf("reportErr=%v reportResult=%d quoteErr=%v quoteResult=%d device-writes-nothing-back", c.rErr, c.rRes, c.qErr, c.qRes)
+	}
 	return fmt.Sprintf("reportErr=%v reportResult=%d quoteErr=%v quoteResult=%d status=%#x outLen=%d", c.rErr, c.rRes, c.qErr, c.qRes, c.status, c.outLen)
 }
 
@@ -107,11 +117,18 @@ func (c c15Cell) class() string {
 	case c.outLen > labi.ReqBufSize:
 		ol = "outlen-oversized"
 	}
+	if c.untouched {
+		ol = "device-writes-nothing"
+	}
 	return fmt.Sprintf("rErr=%v,rRes0=%v,qErr=%v,qRes0=%v,%s,%s", c.rErr, c.rRes == 0, c.qErr, c.qRes == 0, st, ol)
 }
 
 func c15RunCell(c c15Cell, s *gen.Stream, validQuote bool) (key, oracle, detail string) {
-	d := &scriptDev{reportResult: c.rRes, quoteResult: c.qRes, status: c.status, outLen: c.outLen}
+	if c.untouched {
+		// nothing is written back: the request's own (initial) status 0 and OutLen 0 stay in force
+		c.status, c.outLen = 0, 0
+	}
+	d := &scriptDev{reportResult: c.rRes, quoteResult: c.qRes, status: c.status, outLen: c.outLen, untouched: c.untouched}
 	if c.rErr {
 		d.reportErr = errors.New("scripted report failure")
 	}
@@ -234,6 +251,20 @@ func c15Cells() []c15Cell {
 					cells = append(cells, c)
 				}
 			}
+			// a device that reports success without writing anything back (interleaved with the successful cells
+			// above, so that state kept between calls would show)
+			u := c15Cell{untouched: true}
+			if ri < 0 {
+				u.rErr = true
+			} else {
+				u.rRes = results[ri]
+			}
+			if qi < 0 {
+				u.qErr = true
+			} else {
+				u.qRes = results[qi]
+			}
+			cells = append(cells, u)
 		}
 	}
 	return cells
@@ -260,7 +291,7 @@ func TestC15(t *testing.T) {
 				}
 				if key != "" {
 					gen.Fail(t, gen.Violation{Key: key, Oracle: oracle, Detail: c.String() + ": " + detail,
-						Replay: map[string]any{"kind": "device", "r_err": c.rErr, "q_err": c.qErr, "r_res": uint64(c.rRes), "q_res": uint64(c.qRes), "status": fmt.Sprint(c.status), "out_len": c.outLen, "valid": valid}})
+						Replay: map[string]any{"kind": "device", "r_err": c.rErr, "q_err": c.qErr, "r_res": uint64(c.rRes), "q_res": uint64(c.qRes), "status": fmt.Sprint(c.status), "out_len": c.outLen, "valid": valid, "untouched": c.untouched}})
 				}
 			}
 		}
@@ -270,10 +301,11 @@ func TestC15(t *testing.T) {
 		s := gen.NewStream(rapid.Uint64().Draw(t, "content"), "c15r")
 		c := c15Cell{
 			rErr: rapid.IntRange(0, 9).Draw(t, "rErr") == 0, qErr: rapid.IntRange(0, 9).Draw(t, "qErr") == 0,
-			rRes:   uintptr(rapid.SampledFrom([]uint64{0, 0, 0, 1, 9, 1 << 40}).Draw(t, "rRes")),
-			qRes:   uintptr(rapid.SampledFrom([]uint64{0, 0, 0, 1, 8, 1 << 40}).Draw(t, "qRes")),
-			status: rapid.OneOf(rapid.Just(uint64(0)), rapid.Uint64(), rapid.SampledFrom([]uint64{labi.GetQuoteInFlight, labi.GetQuoteError, labi.GetQuoteServiceUnavailable})).Draw(t, "status"),
-			outLen: rapid.OneOf(rapid.Uint32Range(0, labi.ReqBufSize+2), rapid.Uint32()).Draw(t, "outLen"),
+			rRes:      uintptr(rapid.SampledFrom([]uint64{0, 0, 0, 1, 9, 1 << 40}).Draw(t, "rRes")),
+			qRes:      uintptr(rapid.SampledFrom([]uint64{0, 0, 0, 1, 8, 1 << 40}).Draw(t, "qRes")),
+			status:    rapid.OneOf(rapid.Just(uint64(0)), rapid.Uint64(), rapid.SampledFrom([]uint64{labi.GetQuoteInFlight, labi.GetQuoteError, labi.GetQuoteServiceUnavailable})).Draw(t, "status"),
+			outLen:    rapid.OneOf(rapid.Uint32Range(0, labi.ReqBufSize+2), rapid.Uint32()).Draw(t, "outLen"),
+			untouched: rapid.IntRange(0, 7).Draw(t, "untouched") == 0,
 		}
 		if key, oracle, detail := c15RunCell(c, s, rapid.Bool().Draw(t, "valid")); key != "" {
 			gen.Fail(t, gen.Violation{Key: key, Oracle: oracle, Detail: c.String() + ": " + detail,
@@ -373,7 +405,7 @@ func init() {
 	replayKinds["device"] = func(c map[string]any) string {
 		var st uint64
 		fmt.Sscan(c["status"].(string), &st)
-		cell := c15Cell{rErr: c["r_err"] == true, qErr: c["q_err"] == true, rRes: uintptr(c["r_res"].(float64)), qRes: uintptr(c["q_res"].(float64)), status: st, outLen: uint32(c["out_len"].(float64))}
+		cell := c15Cell{untouched: c["untouched"] == true, rErr: c["r_err"] == true, qErr: c["q_err"] == true, rRes: uintptr(c["r_res"].(float64)), qRes: uintptr(c["q_res"].(float64)), status: st, outLen: uint32(c["out_len"].(float64))}
 		if key, oracle, detail := c15RunCell(cell, gen.NewStream(1, "replay"), c["valid"] == true); key != "" {
 			return key + " (" + oracle + "): " + detail
 		}
